@@ -60,6 +60,21 @@ impl KalmanState<{ kalman_2d_box::DIM_2D_BOX_X2 }> {
     }
 }
 
+#[cfg(similari_verif)]
+impl<const X: usize> KalmanState<X> {
+    /// Read-only view for the verification harness: mean and row-major covariance.
+    pub fn verif_raw(&self) -> (Vec<f32>, Vec<f32>) {
+        let mean = self.mean.iter().cloned().collect();
+        let mut cov = Vec::with_capacity(X * X);
+        for i in 0..X {
+            for j in 0..X {
+                cov.push(self.covariance[(i, j)]);
+            }
+        }
+        (mean, cov)
+    }
+}
+
 impl<const X: usize> KalmanState<X> {
     /// dump the state
     ///
